@@ -4,12 +4,14 @@ import NasdaqModel.Model.Registry
 Line protocol for Model/Registry.lean (property C19).
 
   reg.run (<decl>*) (<query>*)
-      decl  = (<cid> <name> <itch|ouch|sqf> <base app> <proto|plain|gen> <ind|none> <outgoing|incoming|other|none> <app kw|none>)
+      decl  = (<cid> <name> <itch|ouch|sqf> <base app> <proto|plain|gen> <ind|none> <outgoing|incoming|other|none> <app kw|none>
+               [<module> <bare|top|factory|meta> <bind 0|1> <unbind 0|1>])         the site of the statement (default: bare)
       query = (sweep <proto> <app>)                all 256 id bytes through `Base.from_bytes`
             | (dec <proto> <app> <byte>)
             | (ind <app> <proto> <indicator> <dir>)  get_msg_cls_by_indicator
             | (name <app> <name>)                    get_msg_cls_by_name
             | (classes <app>)                        get_msg_classes
+            | (bound <module> <name>)                what the module namespace binds the class name to (`key`: unbound)
    -> ok (<ok|dup|value|…>*) (<answer>*)      answer: class id, `key` for KeyError, or a list of those
 -/
 namespace NasdaqModel.Driver.RegistryD
@@ -44,11 +46,27 @@ def declOf : Sexp → Option Decl
              ind := (← optOf asNat i), dir := (← optOf dirOf d), appKw := (← optOf asNat k) }
   | _ => none
 
+def formOf : Sexp → Option Form
+  | .atom "bare" => some .bare
+  | .atom "top" => some .topLevel
+  | .atom "factory" => some .factory
+  | .atom "meta" => some .metaCall
+  | _ => none
+
+def sdeclOf : Sexp → Option SDecl
+  | .list [c, n, p, a, st, i, d, k] => do
+      some { decl := (← declOf (.list [c, n, p, a, st, i, d, k])),
+             site := { modl := 0, form := .bare, bind := false, unbind := false } }
+  | .list [c, n, p, a, st, i, d, k, m, f, b, u] => do
+      some { decl := (← declOf (.list [c, n, p, a, st, i, d, k])),
+             site := { modl := (← asNat m), form := (← formOf f), bind := (← asNat b) != 0, unbind := (← asNat u) != 0 } }
+  | _ => none
+
 def resStr : Except Err Nat → String
   | .ok c => toString c
   | .error e => e.name
 
-def answer (r : Reg) : Sexp → Option String
+def answerReg (r : Reg) : Sexp → Option String
   | .list [.atom "sweep", p, a] => do
       let b : Base := { proto := (← protoOf p), app := (← asNat a), style := .plain }
       some ("(" ++ " ".intercalate ((List.range 256).map fun i => resStr (decode r b i)) ++ ")")
@@ -62,13 +80,18 @@ def answer (r : Reg) : Sexp → Option String
       some ("(" ++ " ".intercalate ((classes r (← asNat a)).map toString) ++ ")")
   | _ => none
 
+def answer (w : World) : Sexp → Option String
+  | .list [.atom "bound", m, n] => do
+      some (match bindGet w.binds (← asNat m) (← asNat n) with | some c => toString c | none => "key")
+  | q => answerReg w.reg q
+
 def handle (op : String) (args : List Sexp) : Option String :=
   match op, args with
   | "reg.run", [.list ds, .list qs] => do
-      let ds ← ds.mapM declOf
-      let r := run Reg.empty ds
-      let outs := (outcomes Reg.empty ds).map fun | none => "ok" | some e => e.name
-      let ans ← qs.mapM (answer r)
+      let sds ← ds.mapM sdeclOf
+      let w := runAt World.empty sds
+      let outs := (outcomes Reg.empty (sds.map (·.decl))).map fun | none => "ok" | some e => e.name
+      let ans ← qs.mapM (answer w)
       some s!"ok ({" ".intercalate outs}) ({" ".intercalate ans})"
   | _, _ => none
 
